@@ -94,6 +94,7 @@ class _NoSleep:
 _NOSLEEP = _NoSleep()
 _saved = None
 _real_sleep = _time.sleep
+_real_gc_enable = gc.enable
 _real_sock_init = _socket.socket.__init__
 _real_default_selector = _selectors.DefaultSelector
 _real_get_exposed_members = SV._get_exposed_members
@@ -248,6 +249,11 @@ def install(sched, net, uuid_seed=0, line_codes=()):
             raise SeamEscape("real selectors.DefaultSelector() from a simulated thread")
         return _real_default_selector(*a, **k)
 
+    # serpent.dumps()/loads() end with gc.enable(): from the first serpent message on the cyclic collector would run again inside the
+    # run, at moments that depend on the allocation count (i.e. on earlier runs of the worker process), and finalizers
+    # (__del__ of a stream iterator closes through a temporary proxy!) would run in whichever thread happens to allocate.
+    # During a run only explicit gc.collect() calls collect.
+    gc.enable = _gc_enable_ignored
     marshalguard.install()      # allocation seam: absurd container sizes in marshal data fail to allocate (and are recorded)
     _time.sleep = sleep
     _socket.socket.__init__ = sock_init
@@ -256,8 +262,13 @@ def install(sched, net, uuid_seed=0, line_codes=()):
     return tf, tm
 
 
+def _gc_enable_ignored():
+    pass
+
+
 def uninstall():
     global _saved
+    gc.enable = _real_gc_enable
     S.uninstall()
     marshalguard.uninstall()
     while _patched:
